@@ -53,6 +53,44 @@ CHECKS = {
             "DESIGN.md §4 C19"),
 }
 
+TRUST_SVC = "Trusted: the harness and its stand-ins (fakemongo = in-memory MongoDB wire-protocol server for the command subset orda issues; fakemqtt = MQTT 3.1.1 broker subset), the Go runtime. Real: server/service, server/mongodb, server/snapshot, server/notification, server/managers, mongo-go-driver, paho, grpc, the client SDK. Only the in-process local lock is exercised (no Redis). Says nothing about executions not produced."
+
+CHECKS.update({
+    "C05": ("exploration", "runtime monitoring: convergence / exactly-once / checkpoint-monotonicity monitors over seeded multi-client sync scenarios against the real service",
+            "Seeded scenarios of 1-6 MANUALLY clients, 1-3 datatypes each, all entry modes and late joins drive the real service over the in-memory MongoDB stand-in; after quiescence every subscribed client equals every other, the server's rebuilt copy (snapshot.Manager.GetLatestDatatype) and a replay of the stored log; the remote-operation handlers give exactly-once / log order / never-own; checkpoints never move backwards; store invariants after every request. The thorough tier adds runs through real grpc Connect()/Sync().",
+            TRUST_SVC, "DESIGN.md §4 C05"),
+    "C06": ("exploration", "runtime monitoring: invariant checker over the stored collections after every request (gapless sseq, _id, end of log, per-client order, exactly-once against the boundary ledger, checkpoints)",
+            "After EVERY request of seeded scenarios (incl. replays of old requests, stale checkpoints, empty pushes, batches of 1-200 operations) the stand-in's collections are read directly and checked per datatype: sseq = 1..n = recorded end of log, _id = duid:sseq, per-client seq 1,2,3,... in sseq order, each stored operation offered exactly once at the boundary, recorded and returned checkpoints covered by what is stored.",
+            TRUST_SVC, "DESIGN.md §4 C06"),
+    "C07": ("fault_enumeration", "runtime monitoring under enumerated message faults: the harness is the network (drop response / duplicate request / stale response / retry); exactly-once + convergence + store-invariant oracles after recovery",
+            "Complete enumeration of at most two message faults over the five exchanges of 8 exchange patterns x 3 operation masks (x 2 types in the thorough tier) plus long random faulty histories on all four types; after faults stop and everyone syncs to quiescence every issued operation is stored exactly once, every replica equals the fault-free replay of the stored log, no handler saw an operation twice or an own one.",
+            TRUST_SVC + " Exhaustive only for the stated plan space.", "DESIGN.md §4 C07"),
+    "C08": ("fault_enumeration", "runtime monitoring under enumerated storage faults: fail / sever / sever-after at every database command of every request (profiled from a fault-free run), restart of the service, retry; recovery oracles",
+            "For 4 scenario variants every database command issued while serving each request (incl. those of the background snapshot goroutine) is in turn failed, severed before, and severed after execution; a new service incarnation starts, all clients retry; the faulted call must have been answered with an error (no panic, no hang), acknowledged operations are in the log, store invariants hold, retries reach quiescence and every replica and the server's rebuild equal the fault-free run.",
+            TRUST_SVC + " Server death is approximated in-process (connections severed, service object abandoned; the lock registry survives).", "DESIGN.md §4 C08"),
+    "C11": ("exploration", "runtime monitoring: offline checker over the stored snapshots, user-collection writes (command log) and rebuilds vs replay of the stored log, with background updates held at database commands to overlap later pushes",
+            "Every stored snapshot (duid, v) restored into a fresh datatype equals replay(1..v); every user-collection write carries _orda_ver_ = v and the JSON view of replay(1..v); written versions per key never decrease; GetLatestDatatype equals the full replay for every position of the latest snapshot; schedules hold a background update at each of its database commands while later pushes commit, run updates back to back, or start them out of order.",
+            TRUST_SVC + " Keys avoid NUL, '$' and '.'.", "DESIGN.md §4 C11"),
+    "C12": ("exploration", "Go race detector + runtime monitors on real parallel executions: critical-section overlap monitor on hook events, porcupine linearizability of the recorded push-pull history against a sequential specification, independence gate, watchdog",
+            "2-16 goroutines call the real service at the same instant on shared and distinct keys (own context each, cancelled on return) with injected yields at hook points and database commands; at most one handler per key inside the critical section; the call/return history of every key is linearizable against the push-pull specification (porcupine); requests on other keys return while one key's handler is held; every request returns; no race report attributed to orda code.",
+            TRUST_SVC + " Schedules are those the Go scheduler produced under the injected delays; the evidence counts the distinct critical-section entry orders seen. porcupine timeout = inconclusive.", "DESIGN.md §4 C12"),
+    "C13": ("exploration", "runtime monitoring: complete entry-mode matrix with outcome oracle (error handler, state transitions, store diff, single datatype document under races, first state vs replay)",
+            "The complete matrix entry mode x existing datatype x other client (absent / first / racing) x point of history x type (432 cells) is executed with seeded repetitions; illegal entries must reach the error handler with an empty store diff and no transition to SUBSCRIBED, legal ones report SUBSCRIBED exactly once with a first state equal to the replay up to the response checkpoint; racing subscribe-or-create leaves exactly one datatype document.",
+            TRUST_SVC + " The matrix is complete; histories around the cells are seeded samples.", "DESIGN.md §4 C13"),
+    "C16": ("exploration", "runtime monitoring: request mutation (hostile requests) with answered/hang/panic watchdog, refused => empty store diff oracle, canary client; client half for error packs",
+            "Valid requests captured from correct clients in every state are mutated in 1-3 fields (ids, keys, types, every option-bit combination, checkpoints, operation lists, client / collection fields) plus ClientMessage / PatchMessage / CollectionMessage variants; every call must be answered, never crash the server, and a refusal must leave the store unchanged; a canary client must still be served afterwards; clients must survive every error pack and push again after a refused push.",
+            TRUST_SVC, "DESIGN.md §4 C16"),
+    "C17": ("exploration", "runtime monitoring: store diff partitioned by owner after every request over several collections in a fresh store; foreign-request and reset oracles",
+            "Seeded histories over 2-3 collections with overlapping keys: every request may touch only documents owned by its own collection and datatype; foreign requests must change and read nothing of the other collection; ResetCollection removes exactly the owner's documents and leaves the rest byte-identical.",
+            TRUST_SVC, "DESIGN.md §4 C17"),
+    "C18": ("exploration", "runtime monitoring: publish-log checker (exactly one notification iff operations stored, content) + bounded-progress convergence of REALTIME clients over real grpc/paho under the race detector",
+            "Deterministic part: after every request the broker stand-in's publish log grew by exactly one message {pusher, DUID, new end of log} per datatype that stored operations and by none otherwise. Realtime part: 2-5 REALTIME SDK clients only issue local operations; after logical quiescence all hold equal state with nothing left to push; own notifications trigger no pull.",
+            TRUST_SVC + " 'Eventually' is decided as bounded progress to logical quiescence (60 s watchdog => inconclusive). Race reports of this workload are advisory (counted, decided under C20).", "DESIGN.md §4 C18"),
+    "C20": ("exploration", "Go race detector + runtime monitors on real parallel use of one datatype: conservation, gapless id order, transaction contiguity and isolation, porcupine linearizability of return values, deadlock/panic watchdog",
+            "2-8 goroutines issue operations and transactions on one datatype of each type while a background goroutine syncs with the real service and remote operations arrive, with yields injected inside BeginTransaction / unlock; the counter equals the sum of successful deltas, every successful call is queued exactly once in identifier order, transaction units are contiguous and isolated, return values are linearizable, no deadlock / panic, and race reports are classified (mutator paths: violation; unlocked public readers: known finding).",
+            TRUST_SVC + " One known finding (readers outside the lock) is listed in known_findings.json.", "DESIGN.md §4 C20"),
+})
+
 PENDING_REASON = "check not built yet in this revision of /verif (work in progress; DESIGN.md §4 describes the planned monitor)"
 
 ALL = ["C%02d" % i for i in range(1, 21)]
